@@ -432,6 +432,15 @@ let dispatch (cmd : string) (args : sx list) : sx =
        | Arr a -> out_of_res (Ok (Arr (sort_by val_cmp a)))
        | _ -> unmodelled)
   | "run", _ -> cmd_run args
+  | "modload", [L files; L main_deps] ->
+      (* files: ((id dep...)...) *)
+      let n x = (match x with Atom a -> nat_of_int (int_of_string a) | _ -> failwith "nat") in
+      let fs = List.map (function L (f :: ds) -> (n f, List.map n ds) | _ -> failwith "file") files in
+      (match load fs (List.map n main_deps) with
+       | Inl mods -> L [Atom "loaded"; L (List.map (fun m -> Atom (string_of_int (int_of_nat m))) mods)]
+       | Inr (Circular f) -> L [Atom "circular"; Atom (string_of_int (int_of_nat f))]
+       | Inr (NotFound f) -> L [Atom "notfound"; Atom (string_of_int (int_of_nat f))]
+       | Inr Fuel -> L [Atom "fuel"])
   | "climb", [L ops] ->
       (* operator names -> tree built by the precedence-climbing model over atoms 0..n *)
       let op_of = function
